@@ -298,6 +298,7 @@ func (c *tunnelChannel) newStream(ctx context.Context, clientStreams, serverStre
 	if err != nil {
 		return nil, err
 	}
+	verifYield("cli.alloc", str.streamID)
 	err = c.stream.Send(&tunnelpb.ClientToServer{
 		StreamId: str.streamID,
 		Frame: &tunnelpb.ClientToServer_NewStream{
@@ -317,6 +318,7 @@ func (c *tunnelChannel) newStream(ctx context.Context, clientStreams, serverStre
 		// if context gets cancelled, make sure
 		// we shut down the stream
 		<-str.ctx.Done()
+		verifYield("cli.watch.fired", str.streamID)
 		str.cancelStream(str.ctx.Err())
 	}()
 	return str, nil
@@ -441,6 +443,7 @@ func (c *tunnelChannel) allocateStream(ctx context.Context, clientStreams, serve
 				}
 			},
 			func(windowUpdate uint32) {
+				verifYield("cli.credit", streamID)
 				if str.loadDone() != nil {
 					// don't bother with window updates; no more data coming
 					return
@@ -495,6 +498,7 @@ func (c *tunnelChannel) recvLoop() {
 			return
 		}
 		c.settings = settings.Settings
+		verifEvent("cli.settings", -1, int64(c.useRevision), int64(settings.Settings.InitialWindowSize))
 	}
 	close(c.awaitSettings)
 
@@ -552,6 +556,7 @@ func (c *tunnelChannel) close(err error) bool {
 	if c.tearDown != nil {
 		c.tearDown(c)
 	}
+	verifYield("cli.close.teardown", 0)
 
 	c.mu.Lock()
 	defer c.mu.Unlock()
@@ -563,6 +568,7 @@ func (c *tunnelChannel) close(err error) bool {
 	defer c.cancel()
 
 	c.finished = true
+	verifEvent("cli.close.marked", 0, int64(len(c.streams)), 0)
 	if err == nil {
 		err = io.EOF
 	}
@@ -833,9 +839,12 @@ func (st *tunnelClientStream) cancelStream(err error) {
 		// stream already closed
 		return
 	}
+	verifYield("cli.cancel.finished", st.streamID)
 	st.receiver.cancel()
+	verifYield("cli.cancel.rcvcancelled", st.streamID)
 	// Let server know, too.
 	go func() {
+		verifYield("cli.cancel.emit", st.streamID)
 		_ = st.stream.Send(&tunnelpb.ClientToServer{
 			StreamId: st.streamID,
 			Frame: &tunnelpb.ClientToServer_Cancel{
@@ -859,8 +868,11 @@ func (st *tunnelClientStream) finishStream(err error, trailers metadata.MD) bool
 		return false
 	}
 	defer st.cancel()
+	verifYield("cli.finish.cas", st.streamID)
 	st.ch.removeStream(st.streamID)
+	verifYield("cli.finish.removed", st.streamID)
 	st.receiver.close()
+	verifYield("cli.finish.rcvclosed", st.streamID)
 
 	st.metaMu.Lock()
 	defer st.metaMu.Unlock()
@@ -874,6 +886,7 @@ func (st *tunnelClientStream) finishStream(err error, trailers metadata.MD) bool
 		close(st.gotHeadersSignal)
 	}
 	close(st.doneSignal)
+	verifEvent("cli.finish.published", st.streamID, 0, 0)
 
 	return true
 }
